@@ -1210,3 +1210,27 @@ def _memo_length2(self, I):
 
 
 AbsMemo.length = _memo_length2
+
+
+class OutByteSlot(Box_):
+    __slots__ = ("out", "idx", "I")
+
+    def __init__(self, out, idx, I):
+        self.out, self.idx, self.I = out, idx, I
+        self.name = "output[i]"
+
+    @property
+    def v(self):
+        return self.out.index_get(self.I, self.idx)
+
+    @v.setter
+    def v(self, val):
+        self.out.index_set(self.I, self.idx, val)
+
+
+def _out_index_ref(self, I, idx):
+    self._bounds(I, idx)
+    return Ref(OutByteSlot(self, idx, I), ())
+
+
+AbsOutput.index_ref = _out_index_ref
